@@ -58,16 +58,24 @@ def run_stencils(spec, rec, dadi):
                 p0[j] = float(10 ** rng.uniform(-12, -7))          # p*eps < 1e-6: one-sided stencil
             elif r < 0.4:
                 p0[j] = abs(p0[j]) + 1e-3
-        quad = lambda p, A=A, b=b: float(0.5 * p @ A @ p + b @ p + c0)
-        lin = lambda p, b=b: float(b @ p + c0)
+        int_point = ci % 5 == 4
+        if int_point:
+            # whole-number parameters given as Python ints / an integer array (a count, a fixed small integer, zero): the steps
+            # are fractions of them all the same
+            p0 = np.array([int(v) for v in rng.integers(-4, 6, size=k)])
+        quad = lambda p, A=A, b=b: float(0.5 * np.asarray(p, float) @ A @ np.asarray(p, float) + b @ np.asarray(p, float) + c0)
+        lin = lambda p, b=b: float(b @ np.asarray(p, float) + c0)
         one = np.array([(pv == 0) or (pv * eps < 1e-6) for pv in p0])
         desc = {"k": k, "eps": eps, "p0": p0, "one_sided": one.tolist()}
         if not rec.case("st-%d" % ci, desc, nontrivial=(k >= 2)):
             continue
-        tags = {"k": k, "any_one_sided": bool(one.any()), "all_one_sided": bool(one.all())}
-        h = np.where(one, eps, eps * np.abs(p0))
+        tags = {"k": k, "any_one_sided": bool(one.any()), "all_one_sided": bool(one.all()), "integer_point": int_point}
+        if int_point and ci % 2:
+            p0 = [int(v) for v in p0]
+        h = np.where(one, eps, eps * np.abs(np.asarray(p0, float)))
         scale = max(float(np.max(np.abs(A))), 1e-300)
-        fmax = max(abs(quad(p0)), abs(quad(p0 + 2 * h)), abs(quad(p0 - h)), 1.0)
+        pf = np.asarray(p0, float)
+        fmax = max(abs(quad(pf)), abs(quad(pf + 2 * h)), abs(quad(pf - h)), 1.0)
         ok, H = rec.noraise("get_hess-returns", lambda: Godambe.get_hess(quad, p0, eps), site="Godambe.get_hess", tags=tags)
         if ok:
             # pure cancellation error: ~ eps_mach * |f| / h^2
@@ -77,14 +85,14 @@ def run_stencils(spec, rec, dadi):
         ok, G = rec.noraise("get_grad-returns", lambda: Godambe.get_grad(quad, p0, eps), site="Godambe.get_grad", tags=tags)
         if ok:
             G = np.asarray(G).ravel()
-            gtrue = A @ p0 + b
+            gtrue = A @ pf + b
             tolg = 1e-9 * max(float(np.max(np.abs(gtrue))), 1.0) + 256 * 2.2e-16 * fmax / float(np.min(h))
             if (~one).any():
                 rec.close("gradient-exact-central-quadratic", float(np.max(np.abs(G - gtrue)[~one])), tolg, site="Godambe.get_grad", tags=tags)
         ok, GL = rec.noraise("get_grad-returns", lambda: Godambe.get_grad(lin, p0, eps), site="Godambe.get_grad", tags=tags)
         if ok:
             GL = np.asarray(GL).ravel()
-            tolg = 1e-9 * max(float(np.max(np.abs(b))), 1.0) + 256 * 2.2e-16 * max(abs(lin(p0)), 1.0) / float(np.min(h))
+            tolg = 1e-9 * max(float(np.max(np.abs(b))), 1.0) + 256 * 2.2e-16 * max(abs(lin(pf)), 1.0) / float(np.min(h))
             rec.close("gradient-exact-onesided-linear", float(np.max(np.abs(GL - b))), tolg, site="Godambe.get_grad", tags=tags)
 
 
